@@ -34,6 +34,7 @@ def main():
 
     cwd = os.path.realpath(os.getcwd())
     tmpdir = os.path.realpath(os.environ.get("TMPDIR", "/tmp"))
+    tmp_raw = os.path.abspath(os.environ.get("TMPDIR", "/tmp"))   # as spelled (it may be reached through a symbolic link)
     extra = [os.path.realpath(a) for a in args if not a.startswith("-") and os.path.exists(a)]
     out = os.fdopen(ctl_out, "w", buffering=1)
     inp = os.fdopen(ctl_in, "r", buffering=1)
@@ -59,7 +60,7 @@ def main():
             return False
         if p.startswith(repo) or p.startswith(verif):
             return False
-        return p == cwd or p.startswith(cwd + os.sep) or p == tmpdir or p.startswith(tmpdir + os.sep) or p in extra
+        return p == cwd or p.startswith(cwd + os.sep) or p == tmpdir or p.startswith(tmpdir + os.sep) or p == tmp_raw or p.startswith(tmp_raw + os.sep) or p in extra
 
     def ask(ev, path, **kw):
         """Report an interception point and wait for the controller's answer."""
@@ -124,7 +125,7 @@ def main():
             return f"n{self.c - 1:03d}"
 
     tempfile._name_sequence = Names()
-    tempfile.tempdir = tmpdir  # skip tempfile's own writability probe (random names; not an application step)
+    tempfile.tempdir = tmp_raw  # the spelling the process was given; skip tempfile's own writability probe (random names; not an application step)
     tok = {"c": 0}
 
     def token_hex(nbytes=None):
@@ -197,8 +198,11 @@ def main():
 
     # stdout ---------------------------------------------------------------------------------------------------
     class Out:
-        def __init__(self, real):
+        """text layer of stdout; .buffer is wrapped the same way (the application may write bytes)"""
+
+        def __init__(self, real, is_buffer=False):
             self._real = real
+            self._buffer = None if is_buffer or not hasattr(real, "buffer") else Out(real.buffer, True)
 
         def write(self, s):
             if state["on"] and not state["busy"] and s:
@@ -208,8 +212,19 @@ def main():
                 finally:
                     state["busy"] = False
                 if ans.get("act") == "fail":
+                    import errno as _errno
+                    import signal as _signal
+                    if ans["errno"] == _errno.EPIPE and _signal.getsignal(_signal.SIGPIPE) == _signal.SIG_DFL:
+                        # with the default disposition the kernel does not return EPIPE: it kills the writer on the spot
+                        os.kill(os.getpid(), _signal.SIGPIPE)
                     raise BrokenPipeError(ans["errno"], os.strerror(ans["errno"]))
             return self._real.write(s)
+
+        @property
+        def buffer(self):
+            if self._buffer is None:
+                raise AttributeError("buffer")
+            return self._buffer
 
         def __getattr__(self, n):
             return getattr(self._real, n)
